@@ -6,14 +6,14 @@ from gen import extract_facts
 generate_facts = extract_facts.generate
 
 ID = "C04"
-LEAN_MODULES = ["Econf.Props.C04", "Econf.Props.Tie", "Econf.Props.Leaf", "Econf.Props.LeafKf", "Econf.Props.LeafMerge", "Econf.Props.LeafAddNew"]
+LEAN_MODULES = ["Econf.Props.C04", "Econf.Props.Tie", "Econf.Props.Leaf", "Econf.Props.LeafKf", "Econf.Props.LeafMerge", "Econf.Props.LeafAddNew", "Econf.Props.LeafMergeEx", "Econf.Props.LeafMergeAll"]
 THEOREMS = ["Econf.C04_read_total", "Econf.C04_line_total", "Econf.C04_split_lossless", "Econf.parseLine_err", "Econf.Struct.tie_parser_codes",
             "Leaf.ltrim_exec", "Leaf.rtrim_exec", "Leaf.trim_exec", "Leaf.toLowerCase_exec",
             "Leaf.stripbrackets_exec", "Leaf.C_trim", "Leaf.C_toLowerCase", "Leaf.C_stripbrackets", "Leaf.C_ltrim",
             "Leaf.check_delim_exec", "Leaf.hashstring_exec",
             "Leaf.addbrackets_exec", "Leaf.replace_str_exec", "Leaf.C_replace_str", "Leaf.replaceSpec_length",
             "LeafKf.first_entry_exec", "LeafKf.has_group_exec", "LeafKf.first_definition_exec",
-            "LeafKf.find_key_exec", "LeafKf.getFromGroupList_exec", "LeafKf.setGroupList_new", "LeafKf.setGroupList_found", "LeafKf.cpy_file_entry_exec", "LeafKf.C_fe_append", "LeafKf.insert_nogroup_exec", "LeafKf.add_new_groups_exec"]
+            "LeafKf.find_key_exec", "LeafKf.getFromGroupList_exec", "LeafKf.setGroupList_new", "LeafKf.setGroupList_found", "LeafKf.cpy_file_entry_exec", "LeafKf.C_fe_append", "LeafKf.insert_nogroup_exec", "LeafKf.add_new_groups_exec", "LeafKf.C_merge_existing_groups"]
 # the string helpers whose C source is translated to MiniC on every run (memory safety for every input is a theorem about the translation)
 LEAF_FNS = ["stripbrackets", "addbrackets", "toLowerCase", "hashstring", "ltrim", "rtrim", "trim", "check_delim", "replace_str",
             "has_group", "first_entry", "first_definition", "getFromGroupList", "find_key",
